@@ -29,9 +29,22 @@ EXPLANATION = (
     "collecting steps with 2-3 workers and incrementing / exponential / chained waits whose retried invocation is re-run "
     "between two failures: delay after failure k recomputed from the spec's numbers against the virtual-clock "
     "timestamps (C06/retry_too_early:after_collect_rerun...), and the number handed to next() at the k-th failure is k "
-    "(C06/failure_number_handed_to_policy...)."
+    "(C06/failure_number_handed_to_policy...). "
+    "Whole-run form (C06_retry_never_before_its_delay, runner invariant C06Inv preserved by every action, from a fresh or "
+    "resumed start, every action list): every re-admitted retry in the tick log was reduced no earlier than the failure time "
+    "its record carries plus the delay the policy grants for exactly that failure; parked / buffered retries likewise. "
+    "Policy side for all chains, parameters and retry numbers: which chain link answers retry k, the chain head is never "
+    "consulted for k>=1 by any composed policy, the documented-order clause fails for every chain of fixed waits whose first "
+    "two links differ, exact k-th delay of the exponential / incrementing strategies against the regenerated bodies. "
+    "C06_delay_source_shape pins the delay path of the source (retry command record, delay>0 parking test, get_now()+delay, "
+    "pop_due_ticks <= now, failed_at sources). New K stream: one policy object answers a whole failure history as the loop asks."
 )
-ASSUMPTIONS = suite.ENGINE_ASSUMPTIONS
+ASSUMPTIONS = suite.ENGINE_ASSUMPTIONS + [
+    "C06_retry_never_before_its_delay assumes (explicit hypotheses c06ActsOk / c06InitOk, counter-example beside the theorem): a "
+    "worker's failed_at is not later than the clock at which its result is queued (failed_at = time.time() / adapter.get_now() "
+    "read when the step raises; adapter contract: get_now() is the epoch clock, monotone), ticks sent from outside carry no "
+    "failure record (ctx.send_event builds a bare TickAddEvent), and a resumed state's waiters hold only records already served.",
+]
 
 
 def history_stream(env: Env, out: Outcome, n: int) -> None:
